@@ -40,13 +40,15 @@ type step struct {
 
 const (
 	nIds      = 2
-	nAccounts = 3
+	nAccounts = 4
 	refundGap = 36000
 	bigHeight = 1000000000
 )
 
 var (
-	accounts = []string{"", execdrv.Funded[0], execdrv.Funded[1], execdrv.Poor} // 1, 2 funded; 3 holds 2 RPG
+	// 1, 2 funded; 3 holds 2 RPG; 4 is cold: an address that never held anything (no state object),
+	// only ever named as the account of a miner
+	accounts = []string{"", execdrv.Funded[0], execdrv.Funded[1], execdrv.Poor, "0x00000000000000000000000000000000c01dc01d"}
 	minerIds [][]byte
 	pk       = make([]byte, 128)
 	vrfPk    = make([]byte, 32)
